@@ -175,10 +175,19 @@ int main(int argc, char **argv)
 	mt.timeout = (uint32_t)arg(argc, argv, "timeout", 0);
 	mt.flags = (uint32_t)arg(argc, argv, "flags", 0);
 	lzma_ret r;
+	long updates = arg(argc, argv, "updates", 0);
+	lzma_options_lzma opt_lzma;
+	lzma_options_delta opt_delta = { .type = LZMA_DELTA_TYPE_BYTE, .dist = 1 };
+	lzma_filter chain[3] = { { LZMA_FILTER_DELTA, &opt_delta }, { LZMA_FILTER_LZMA2, &opt_lzma }, { LZMA_VLI_UNKNOWN, NULL } };
 	if (enc) {
 		mt.block_size = (uint64_t)arg(argc, argv, "blocksize", 0);
 		mt.preset = (uint32_t)arg(argc, argv, "preset", 0);
 		mt.check = (lzma_check)arg(argc, argv, "check", LZMA_CHECK_CRC32);
+		if (updates) {
+			// filter chain [delta(dist), LZMA2]: dist tells in the Block Headers which chain a Block was made with
+			lzma_lzma_preset(&opt_lzma, mt.preset);
+			mt.filters = chain;
+		}
 		r = lzma_stream_encoder_mt(&strm, &mt);
 	} else {
 		mt.memlimit_threading = (uint64_t)arg(argc, argv, "memthr", -1);
@@ -216,6 +225,7 @@ int main(int argc, char **argv)
 		if (!reinited && reinit_after >= 0 && calls >= reinit_after) {
 			// give the same lzma_stream to the constructor again without lzma_end() and start over
 			record("AppReinit", -1, 0, 0, 0, 0);
+			opt_delta.dist = 1;
 			r = enc ? lzma_stream_encoder_mt(&strm, &mt) : lzma_stream_decoder_mt(&strm, &mt);
 			record("Reinited", -1, r, 0, 0, 0);
 			if (r != LZMA_OK) break;
@@ -269,10 +279,24 @@ int main(int argc, char **argv)
 			record("FlushDone", -1, action, (long)ip, (long)op, 0);
 			pending_action = LZMA_RUN;
 			++next_act;
+			if (enc && updates) {
+				// between two Blocks: change the chain (accepted after a barrier / flush: no Block is open)
+				++opt_delta.dist;
+				lzma_ret u = lzma_filters_update(&strm, chain);
+				record("Update", -1, u, (long)opt_delta.dist, 0, 0);
+				if (u != LZMA_OK) --opt_delta.dist;
+			}
 			continue;
 		}
 		if (ret == LZMA_OK && action != LZMA_RUN && action != LZMA_FINISH)
 			pending_action = action;
+		if (enc && updates && ret == LZMA_OK && action == LZMA_RUN && rnd() % 4 == 0) {
+			// an update at an arbitrary moment: accepted only if no Block is open
+			++opt_delta.dist;
+			lzma_ret u = lzma_filters_update(&strm, chain);
+			record("Update", -1, u, (long)opt_delta.dist, 0, 0);
+			if (u != LZMA_OK) --opt_delta.dist;
+		}
 		if (ret != LZMA_OK && ret != LZMA_BUF_ERROR)
 			break;
 		if (ret == LZMA_BUF_ERROR && action == LZMA_FINISH && g == outcap - op + (aout - strm.avail_out) && g > 0)
